@@ -91,8 +91,11 @@ func RunVet(w *world.World, ex *Exec, ch sched.Chooser) (*Outcome, *ExecStats, e
 		}
 		i := ready[ch.Draw(len(ready))]
 		done[i] = true
-		units = append(units, unit{idx: i, vetxOnly: !isRoot[i]})
-		if isRoot[i] && w.Pkgs[i].HasTestFiles() {
+		// `go vet` vets "p [p.test]" INSTEAD of p when p has in-package test files; plain p
+		// is then analysed only for its facts (and only because something may import it)
+		hasVariant := isRoot[i] && w.Pkgs[i].HasTestFiles()
+		units = append(units, unit{idx: i, vetxOnly: !isRoot[i] || hasVariant})
+		if hasVariant {
 			units = append(units, unit{idx: i, testVar: true})
 		}
 		if isRoot[i] && w.Pkgs[i].HasExtTest() {
